@@ -22,6 +22,11 @@ def run(v, tier, seed, replay):
     vlib.tlc_ok(r2, "Solver exploration without contract")
     v.cov["latent_hazard_without_gsl_first_call_contract"] = ("TLC: BindOK violated at depth %d" % r2.depth) if r2.violated else "not found"
     v.add("states", r1.distinct); v.add("transitions", r1.generated)
+    if tier == "thorough":
+        # unbounded: BindOK /\ AfterEvolve /\ SysUnique (+ auxiliary clauses) is an inductive invariant of the typed transcription
+        vlib.apalache_inductive("SolverInd")
+        v.cov["inductive_invariant_apalache"] = ("Init => IndInv and IndInv /\\ Next => IndInv' (SolverInd.tla: BindOK, AfterEvolve, SysUnique under GslContract; "
+                                                 "3 objects, 6 addresses), unbounded in the number of steps and Evolve runs")
     # ---- protocol traces
     rng = random.Random(seed)
     nh = 30 if tier == "quick" else 200
